@@ -43,17 +43,23 @@ class Assembly:
         self.jitter = jitter
         self.order = order or list(range(len(cells)))
         self.mode = ""
+        # curved edges: list of [owner cell idx, corner_1, corner_2, [dx,dy,dz]] - the owner operation gets a
+        # three-point arc between its corners c1,c2 (a block edge) through their mid point displaced by the offset
+        self.arcs = []
 
     def to_json(self):
         return dict(cells=[list(c) for c in self.cells], perms=self.perms,
                     chops=[[b, a, ch] for (b, a), ch in sorted(self.chops.items())],
-                    jitter=[[list(k), list(v)] for k, v in sorted(self.jitter.items())], order=self.order)
+                    jitter=[[list(k), list(v)] for k, v in sorted(self.jitter.items())], order=self.order,
+                    **({"arcs": self.arcs} if self.arcs else {}))
 
     @staticmethod
     def from_json(d):
-        return Assembly([tuple(c) for c in d["cells"]], d["perms"],
-                        {(b, a): ch for b, a, ch in d["chops"]},
-                        {tuple(k): tuple(v) for k, v in d["jitter"]}, d.get("order"))
+        asm = Assembly([tuple(c) for c in d["cells"]], d["perms"],
+                       {(b, a): ch for b, a, ch in d["chops"]},
+                       {tuple(k): tuple(v) for k, v in d["jitter"]}, d.get("order"))
+        asm.arcs = [list(a) for a in d.get("arcs", [])]
+        return asm
 
     def points(self, ci):
         i, j, k = self.cells[ci]
@@ -248,6 +254,18 @@ def build_mesh(asm):
         for a in range(3):
             for ch in asm.chops.get((ci, a), []):
                 op.chop(a, **ch)
+        for oc, c1, c2, off in getattr(asm, "arcs", []):
+            if oc != ci:
+                continue
+            mid = [(pts[c1][k] + pts[c2][k]) / 2 + off[k] for k in range(3)]
+            lo, hi = min(c1, c2), max(c1, c2)
+            if hi < 4:
+                op.bottom_face.add_edge(lo if (lo + 1) % 4 == hi else hi, cb.Arc(mid))
+            elif lo >= 4:
+                op.top_face.add_edge((lo if (lo - 4 + 1) % 4 == hi - 4 else hi) - 4, cb.Arc(mid))
+            else:
+                assert hi == lo + 4, "not a block edge"
+                op.add_side_edge(lo, cb.Arc(mid))
         ops[ci] = op
         mesh.add(op)
     return mesh, ops
